@@ -369,6 +369,28 @@ def fixed_cases():
     return [{"route": "parse", "src": s, "mapping": mapping_json(m)} for s in srcs for m in maps]
 
 
+REGRESSION_SUBTREE = {"route": "parse", "src": '<b><a><!-- aaaaaaaaaaaaaaaaaaaaaaaaaaaaa --></a><p:b xmlns:p="u"/></b>',
+                      "index": 1, "width": 20, "mapping": None}
+
+
+def check_regression_subtree(ctx):
+    """witness of the repaired finding C13-subtree-width-following-namespace (e97da64): sub-tree with a text width whose
+    look-ahead meets a foreign namespace"""
+    w = REGRESSION_SUBTREE
+    with no_gc():
+        node = bfs_tags(Document(w["src"]).root)[w["index"]]
+        for width in (w["width"], 40, 80):
+            ctx.count(1, "formatted/regression-subtree")
+            try:
+                text = node.serialize(format_options=impl.FormatOptions(indentation="  ", width=width))
+            except Exception as e:  # noqa: BLE001
+                ctx.fail("subtree/w%d serialization raised %s" % (width, type(e).__name__), dict(w, width=width), classify)
+                continue
+            fo = {"ser": ("ok", text), "m": None, "t": extract(node)}
+            for b in (direct_clauses(fo) + lxml_clauses(fo))[:1]:
+                ctx.fail("subtree/w%d serialization: %s" % (width, b), dict(w, width=width, output=text), classify)
+
+
 def run(ctx, args):
     ctx.regen(["GenWs.v", "GenNames.v", "GenNs.v"])
     ctx.build("Props/C13.vo")
@@ -380,6 +402,7 @@ def run(ctx, args):
             check_cases(ctx, [case])
         return ctx.finish("replay of " + args.replay, replay_open=replay_open)
     quick = ctx.tier == "quick"
+    check_regression_subtree(ctx)
     cases = fixed_cases()
     n = 700 if quick else 12000
     for i in range(n):
